@@ -15,7 +15,7 @@ import (
 func ruleR04_7(w *World, r *Report) {
 	u := w.Client()
 	r.Rule("R04.7", "the element identities a local list/array operation records for transmission (the targets other replicas look up) are the nodes' immutable order times, never their value or creation times", 4)
-	specs := [][2]string{{"listSnapshot", "updateLocal"}, {"listSnapshot", "deleteLocal"}, {"listSnapshot", "insertLocalWithTimedTypes"}, {"jsonArray", "updateLocal"}}
+	specs := [][2]string{{"listSnapshot", "updateLocal"}, {"listSnapshot", "deleteLocal"}, {"listSnapshot", "insertLocalWithTimedTypes"}, {"jsonArray", "updateLocal"}, {"jsonArray", "deleteLocal"}}
 	for _, sp := range specs {
 		fn := u.Fn(pOrda, sp[0], sp[1])
 		cons := sp[0] + "." + sp[1] + "/targets"
@@ -32,6 +32,21 @@ func ruleR04_7(w *World, r *Report) {
 					continue
 				}
 				n++
+				if ex, isEx := x.(*ssa.Extract); isEx {
+					// the targets of a sibling function that is itself one of the checked ones (jsonArray.deleteLocal
+					// hands on what listSnapshot.deleteLocal recorded)
+					if c, isC := ex.Tuple.(*ssa.Call); isC {
+						sibling := false
+						for _, sp2 := range specs {
+							if calleeName(c) == sp2[1] && staticCallee(c) != nil && staticCallee(c) != fn {
+								sibling = true
+							}
+						}
+						if sibling {
+							continue
+						}
+					}
+				}
 				call, ok := x.(*ssa.Call)
 				if !ok || calleeName(call) != "getOrderTime" {
 					bad = exprName(x) + " at " + u.Pos(pos)
@@ -51,6 +66,20 @@ func ruleR04_7(w *World, r *Report) {
 				for _, res := range x.Results {
 					if isTimestampPtr(res.Type()) {
 						check(res, x.Pos())
+					}
+					// a whole target list handed on from a sibling that is itself checked
+					if sl, isSl := res.Type().Underlying().(*types.Slice); isSl && isTimestampPtr(sl.Elem()) {
+						for _, v := range resolvePhis(res) {
+							if ex, isEx := v.(*ssa.Extract); isEx {
+								if c, isC := ex.Tuple.(*ssa.Call); isC && staticCallee(c) != nil && staticCallee(c) != fn {
+									for _, sp2 := range specs {
+										if calleeName(c) == sp2[1] {
+											n++
+										}
+									}
+								}
+							}
+						}
 					}
 				}
 			}
